@@ -10,7 +10,7 @@ DRIVER = "Driver/C33.lean"
 REQUIRED_THEOREMS = ["tx_stream_is_input_with_idle_replaced", "scrambler_hold_iff_skp_word",
                      "skp_debt_accounting", "debt_counter_overflow_boundary", "link_layer_idle_mux_guarantees_env",
                      "ctc_bounded_fairness", "ctc_bounded_fairness_bucket", "no_idle_debt_counter_wraps",
-                     "no_idle_counter_is_mod_8", "idle_every_178_not_enough"]
+                     "no_idle_counter_is_mod_8", "idle_every_178_not_enough", "ctc_bounded_fairness_windows"]
 RULE = ("cases = DUT (CTCSkipInserter co-simulated against the Lean model; tx half of USB3PhysicalLayer with a "
         "PIPEInterface, monitor only) x traffic mode x seed; traffic = link-layer grammar: bursts (link commands, "
         "header packets, data packets up to 1056 bytes, training sets with COM, random words incl. all-zero words "
@@ -155,20 +155,35 @@ class Debt:
     354 symbols accepted from the link layer (floor division on the running total, remainder kept); an inserted
     SKP word pays two sets; a word is inserted exactly when the link layer allows it and two sets are owed.  The
     gateware keeps the debt in 3 bits: owing an 8th set wraps it to 0 — the documented boundary, mirrored here
-    and tagged."""
+    and tagged.
+
+    Bounded fairness (theorem ctc_bounded_fairness_bucket, restated on the trace): a leaky bucket on the link
+    layer's stream alone (+1 per valid word offered without permission, -176 floored at 0 per cycle with
+    can_send_skip) — as long as its level has never exceeded 530, the unpaid bytes are at most 711 + 4*level
+    after every cycle and nothing is ever forgotten."""
 
     def __init__(self):
         self.bytes = 0
         self.paid = 0
         self.forgotten = 0
         self.wrapped = False
+        self.bucket = 0
+        self.bucket_max = 0
+
+    def unpaid(self):
+        return self.bytes - LIMIT * (self.paid + self.forgotten)
+
+    def bound_broken(self):
+        return self.bucket_max <= 530 and (self.wrapped or self.unpaid() > 711 + 4 * self.bucket)
 
     def owed(self):
         return self.bytes // LIMIT - self.paid - self.forgotten
 
-    def cycle(self, xfer, can):
+    def cycle(self, xfer, can, valid=1):
         """-> True iff a SKP word must replace the word of this cycle"""
         ins = bool(can) and self.owed() >= 2
+        self.bucket = max(self.bucket - 176, 0) if can else self.bucket + (1 if valid else 0)
+        self.bucket_max = max(self.bucket_max, self.bucket)
         if xfer:
             self.bytes += 4
         if ins:
@@ -198,7 +213,14 @@ def monitor_inserter(stim, rows, in_env):
             fails.append({"cycle": t, "sig": "non-idle-word-replaced", "what":
                           "sending_skip=1 over the non-idle word %08x/%x" % (d, c)})
             break
-        want = debt.cycle(v and srdy, can)
+        want = debt.cycle(v and srdy, can, valid=v)
+        if debt.bound_broken():
+            fails.append({"cycle": t, "sig": "fairness-bound", "what":
+                          "%d bytes accepted and not paid for by SKP sets (%d owed sets%s) although the idle "
+                          "opportunities kept the leaky bucket at level %d (never above %d): bound 711 + 4*level"
+                          % (debt.unpaid(), debt.owed(), ", counter wrapped" if debt.wrapped else "", debt.bucket,
+                             debt.bucket_max)})
+            break
         if snd != int(want):
             fails.append({"cycle": t, "sig": "skp-schedule", "what":
                           "sending_skip=%d but %d SKP ordered sets are owed (%d symbols accepted, %d sets sent) "
@@ -210,7 +232,13 @@ def monitor_inserter(stim, rows, in_env):
             tags.add("skp-inserted")
     if debt.wrapped:
         tags.add("debt-counter-wrapped")
+    tags.add(_bucket_tag(debt))
     return fails, tags
+
+
+def _bucket_tag(debt):
+    return ("bucket<=176 (window form applies)" if debt.bucket_max <= 176 else
+            "bucket<=530 (bucket form applies)" if debt.bucket_max <= 530 else "bucket>530 (no bound claimed)")
 
 
 SKPW_V = (1,) + SKPW
@@ -239,6 +267,11 @@ def monitor_phy(stim, rows):
                               "PHY tx %08x/%x, expected %08x/%x (%s)" % (txd, txk, want[0], want[1], prev_why)})
                 break
         ins = debt.cycle(srdy, can)          # sink.valid is tied to 1 inside the physical layer
+        if debt.bound_broken():
+            fails.append({"cycle": t, "sig": "fairness-bound", "what":
+                          "%d bytes unpaid (%d owed sets) with the leaky bucket at level %d (never above %d)"
+                          % (debt.unpaid(), debt.owed(), debt.bucket, debt.bucket_max)})
+            break
         if ins and (d, c) != (0, 0):
             fails.append({"cycle": t, "sig": "non-idle-word-replaced", "what": "SKP over %08x/%x" % (d, c)})
             break
@@ -264,6 +297,7 @@ def monitor_phy(stim, rows):
             tags.add("scrambling")
     if debt.wrapped:
         tags.add("debt-counter-wrapped")
+    tags.add(_bucket_tag(debt))
     return fails, tags
 
 
